@@ -334,6 +334,15 @@ def run(tier: str, seed: int) -> CheckResult:
             params['user'] = [(1.0, 'create', 'a'), (7.0, 'spec', 'a', 2)] + [(7.0 + gap * (i + 1), *a) for i, a in enumerate(tail)]
             params['horizon'] = 7.0 + gap * len(tail) + 20.0
             hist.append(C05Scenario(**params))
+    # somebody edits the spec WHILE a handler runs: the version the closing PATCH returns carries last-handled = the handled state and
+    # an essence that is newer - its event is an update like any other (the state alone decides, not what the process remembers of its writes)
+    for who, tail in itertools.product(('c1', 'u1'), ([], [('status', 'a', 7)], [('label', 'a', 'l', 'v')])):
+        sc = build([], False, 6.0, False, delays=False, early_user=False, time_dev=False)
+        params = dict(sc.params)
+        params['handlers'] = [dict(h, script=['ok+spec5']) if h['id'] == who else (dict(h, script=['ok']) if h['id'] in ('u1', 'd1') else h) for h in params['handlers']]
+        params['user'] = [(1.0, 'create', 'a')] + ([(7.0, 'spec', 'a', 2)] if who == 'u1' else []) + [(14.0 + 6 * i, *a) for i, a in enumerate(tail)]
+        params['horizon'] = 14.0 + 6 * len(tail) + 25.0
+        hist.append(C05Scenario(**params))
     timing = [build(h, bare, 2.0, pre, kills=True) for bare in (True, False) for pre in (False, True) for h in histories(1 if tier == 'quick' else 2, bare)]
     if tier == 'quick':
         groups = [('histories', hist, 0, 60.0), ('timing+kills', timing, 1, 40.0)]
